@@ -7,6 +7,7 @@ import (
 	"github.com/tetratelabs/wazero/experimental/sys"
 	"github.com/tetratelabs/wazero/internal/descriptor"
 	"github.com/tetratelabs/wazero/internal/fsapi"
+	socketapi "github.com/tetratelabs/wazero/internal/sock"
 )
 
 var _ sys.Errno
@@ -37,6 +38,20 @@ func fscInv(c *FSContext) bool {
 
 // Closing a file marks it closed and touches nothing else the runtime can observe.
 //@ prop C16 C15
+//@ iface (f fsapi.File) IsNonblock() bool
+//@   modifies nothing
+//@ iface (f fsapi.File) SetNonblock(enable bool) sys.Errno
+//@   modifies nothing
+//@ iface (f fsapi.File) Poll(flag fsapi.Pflag, timeoutMillis int32) (ready bool, errno sys.Errno)
+//@   modifies nothing
+//@ iface (s socketapi.TCPSock) Accept() (socketapi.TCPConn, sys.Errno)
+//@   ensures r1 == 0 ==> r0 != nil
+//@   modifies nothing
+//@ iface (c socketapi.TCPConn) Recvfrom(p []byte, flags int) (n int, errno sys.Errno)
+//@   ensures 0 <= n && n <= len(p)
+//@   modifies elems(p)
+//@ iface (c socketapi.TCPConn) Shutdown(how int) sys.Errno
+//@   modifies nothing
 //@ iface (f fsapi.File) Close() sys.Errno
 //@   ensures fileClosed(f)
 //@   modifies ghostflag("closed", f)
@@ -44,7 +59,7 @@ func fscInv(c *FSContext) bool {
 //@ func (c *FSContext) LookupFile(fd int32) (*FileEntry, bool)
 //@   requires fscInv(c)
 //@   ensures r1 == fdHas(c, int(fd))
-//@   ensures r1 ==> r0 == fdGet(c, int(fd)) && r0 != nil
+//@   ensures r1 ==> r0 == fdGet(c, int(fd)) && r0 != nil && r0.File != nil
 //@   modifies nothing
 
 //@ func (c *FSContext) CloseFile(fd int32) (errno sys.Errno)
@@ -75,3 +90,10 @@ func fscInv(c *FSContext) bool {
 
 // VerifOpenedFiles exposes the file table for frame clauses of other packages (ghost).
 func VerifOpenedFiles(c *FSContext) *FileTable { return &c.openedFiles }
+
+// VerifCtxInv: what NewContext establishes and every WASI function relies on: a well-formed
+// descriptor table, and clock / sleep / yield / random sources that are always set (the defaults
+// are fakes, see C18), and argument / environment sizes that match the stored strings.
+func VerifCtxInv(c *Context) bool {
+	return fscInv(&c.fsc) && descriptor.VerifTabWords(&c.fsc.openedFiles) < 1<<22 && c.walltime != nil && c.nanotime != nil && c.nanosleep != nil && c.osyield != nil && c.randSource != nil
+}
